@@ -8,6 +8,7 @@ def check(ctx):
     n2 = filters.check_cmp_guards(ctx, rep)
     n3 = filters.check_reductions(ctx, rep)
     n4 = filters.check_path_resolution(ctx, rep)
+    filters.check_list_and_presence_semantics(ctx, rep)
     rep.floor("path resolution obligations", n4, 3)
     rep.floor("operator table rows", n1, 24)
     rep.floor("comparison guard obligations", n2, 10)
